@@ -130,6 +130,20 @@ CHECKS['C11'] = dict(
     technique='Lean 4 proof (invariant by induction over operation histories of a state machine) + history replay against a fresh interpreter',
     ref='DESIGN.md section 5, C11')
 
+CHECKS['C07'] = dict(
+    text='Lean 4 theorems for every list of definitions and every label: a reference resolves to the destination and '
+         'title of the first definition (in append_footnotes call order) whose label equals it after normalisation, later '
+         'duplicates never change an answer, and with no matching definition the lookup fails; normalisation is '
+         'whitespace collapsing followed by the case fold whose table is regenerated from the interpreter. The model is '
+         'tied to core_tokens.normalize_label (every folded/whitespace code point) and to the real Document.footnotes '
+         '(keys, values and insertion order) on generated documents. That the call order is document order at any '
+         'nesting depth and that every inline parse sees the final table are parser statements: explored on the '
+         'implementation with generated placements (partial).',
+    note='Trusted: Lean kernel (axioms propext/Classical.choice/Quot.sound at most); str.casefold as the Unicode case '
+         'fold; correspondence harness. Definitions are placed at block boundaries.',
+    technique='Lean 4 proof (fold invariant: table lookup = first matching definition) + correspondence of normalize_label and Document.footnotes + placement exploration with the generator table as oracle',
+    ref='DESIGN.md section 5, C07')
+
 NOT_YET = {}
 
 
